@@ -34,6 +34,10 @@ CLAIMED = {
         engine="sim-crash", level="exploration", ref="DESIGN.md §6 C07",
         technique="deterministic simulation: seeded savepoint histories with crash-image exploration against the reference model",
         text="Seeded search over interleavings of ephemeral/persistent savepoint creation, restore, delete, drop with data transactions of all durabilities, clean reopen, dirty restart; restore results, later-savepoint invalidation, error variants and the persistent savepoint list are compared with the model; crash images must list exactly the model's persistent savepoints and each must restore to its captured contents."),
+    "C08": dict(
+        engine="sim-fault", level="fault_enumeration", ref="DESIGN.md §6 C08",
+        technique="deterministic simulation with fault injection: for each seeded history, the k-th backend call fails (once or permanently, optionally after a partially applied write) for every k, then the surviving storage is reopened from a crash state",
+        text="For each sampled history (after creation) every index k of its backend-call stream is enumerated (sampled above a cap): call k fails once or for good, a failing write may be partially applied; the API sequence continues; no panic may escape, every Ok result must equal the model, begin_write must be refused once an error has been reported, and after dropping the database the surviving storage (in a chosen crash state) must reopen to one admissible commit point with the failed commit applied entirely or not at all."),
     "C09": dict(
         engine="sim-conf", level="exploration", ref="DESIGN.md §6 C09 (conformance tier)",
         technique="deterministic simulation, fault-free conformance tier: seeded multimap programs against a map-of-sorted-sets model",
@@ -59,7 +63,6 @@ CLAIMED = {
 NOT_YET = {
     "C03": "check not built yet (needs the shuttle-scheduled engine, DESIGN.md §5); no claim is made until it exists",
     "C06": "check not built yet (needs the verif_snapshot hook and the independent decoder, DESIGN.md §4.5); no claim is made until it exists",
-    "C08": "check not built yet (fault-enumeration engine, DESIGN.md §6 C08); no claim is made until it exists",
     "C10": "check not built yet (independent file decoder, DESIGN.md §4.6); no claim is made until it exists",
     "C12": "check not built yet (stored-byte corruption engine, DESIGN.md §6 C12); no claim is made until it exists",
     "C16": "check not built yet (needs the shuttle-scheduled engine, DESIGN.md §5); no claim is made until it exists",
@@ -108,6 +111,8 @@ manifest = {
     "engines": [
         {"name": "sim-conf", "path": "/verif/sim", "serves_properties": [p for p in sorted(CLAIMED) if CLAIMED[p]["engine"] == "sim-conf"],
          "kind_free_text": "single-threaded seeded simulator: real redb on SimDisk (simulated StorageBackend) checked step by step against a reference model"},
+        {"name": "sim-fault", "path": "/verif/sim", "serves_properties": [p for p in sorted(CLAIMED) if CLAIMED[p]["engine"] == "sim-fault"],
+         "kind_free_text": "the same simulator with fault injection at every backend call index, followed by crash-state reopen"},
         {"name": "sim-crash", "path": "/verif/sim", "serves_properties": [p for p in sorted(CLAIMED) if CLAIMED[p]["engine"] == "sim-crash"],
          "kind_free_text": "the same simulator plus crash-image exploration over the recorded backend op log (record once, crash many), nested crashes in recovery"},
     ],
